@@ -233,6 +233,16 @@ def op_local(lg, sv, tag, its, ctx="n"):
     return "M%s:%s:%d:%s:%s" % ("" if ctx == "n" else ctx, lgw(lg), sv, tagw(tag), itemsw(its))
 
 
+def op_moved(lg, sv, tag, its):
+    """{ auto s = L::sv(tag); s << first half…; auto t = std::move(s); t << second half…; }"""
+    return "R:%s:%d:%s:%s" % (lgw(lg), sv, tagw(tag), itemsw(its))
+
+
+def op_direct(lg, sv, msg):
+    """L::will_log(record of severity sv) observed, then L::log(sv, record with message msg) called directly"""
+    return "D:%s:%d:%s" % (lgw(lg), sv, hx(msg))
+
+
 def op_open(v, lg, sv, tag):
     return "N%d:%s:%d:%s" % (v, lgw(lg), sv, tagw(tag))
 
@@ -329,7 +339,7 @@ TAGS = [None, "tg"]
 
 # ------------------------------------------------------------------ case generators
 
-def single_statement_space(mins=range(6), ctxs=None):
+def single_statement_space(mins=range(6), ctxs=None, stride=None):
     """the complete finite space of single statements (all minima x loggers x relevant thresholds x severities x forms x tag x shapes);
     with ctxs: the same statements executed in a context taken in rotation from ctxs (named form = a local variable)"""
     n = 0
@@ -341,6 +351,8 @@ def single_statement_space(mins=range(6), ctxs=None):
                         for tag in TAGS:
                             for sh in shapes_for(lg):
                                 n += 1
+                                if stride and n % stride != 1:
+                                    continue          # (skipped before any text is built)
                                 yield case(mn, pre + stmt_ops(form, lg, sv, tag, shape_items(sh), ctx=ctxs[n % len(ctxs)] if ctxs else "n"))
 
 
@@ -348,11 +360,12 @@ def quick_deterministic():
     """a large deterministic part of the space: every (minimum, logger, threshold setting, severity, form) with shapes and
     tags rotating so that each shape/tag meets each of them often; plus every shape x form x tag x severity x minimum under
     one fixed setting"""
-    n = 0
+    n = cell = 0
     for mn in range(6):
         for lg in range(len(LOGGERS)):
             for pre in threshold_settings(lg):
                 for sv in range(6):
+                    cell += 1
                     for form in "on":
                         for r in range(2):
                             shs = shapes_for(lg)
@@ -361,13 +374,23 @@ def quick_deterministic():
                             n += 1
                             yield case(mn, pre + stmt_ops(form, lg, sv, tag, shape_items(sh))), "stmt-grid"
                         # every callable kind at every cell of the grid, in this form
+                        # (each kind meets each cell in one of the two forms; the forms alternate with the kind and the cell)
                         for j, k in enumerate(CKINDS):
+                            if (j + cell) % 2 != "on".index(form):
+                                continue
                             sh = k if (n + j) % 2 or k in "MwWQ" else "S" + k
                             yield case(mn, pre + stmt_ops(form, lg, sv, TAGS[(n + j) % 2], shape_items(sh))), "kind-grid"
                         # every kind of streamable object at every cell
                         for j, k in enumerate(OBJKINDS):
+                            if (j + cell) % 2 != "on".index(form):
+                                continue
                             sh = k if (n + j) % 2 or k != "b" else "Sb"
                             yield case(mn, pre + stmt_ops(form, lg, sv, TAGS[(n + j) % 2], shape_items(sh))), "object-grid"
+                        # the named stream moved into another variable half-way; will_log()/log() called directly
+                        if form == "n":
+                            shs = shapes_for(lg)
+                            yield case(mn, pre + [op_moved(lg, sv, TAGS[n % 2], shape_items(shs[(n * 3 + 1) % len(shs)]))]), "moved-grid"
+                            yield case(mn, pre + [op_direct(lg, sv, "d%d" % (n % 7))]), "direct-grid"
                         # a failing insertion before / between / after callables at every cell
                         for j in range(2):
                             sh = FAIL_SHAPES[(n + 3 * j) % len(FAIL_SHAPES)]
@@ -399,8 +422,8 @@ def rand_item(rng, nid):
     if k == "V":
         return ("V", rng.choice(OBJKINDS), "".join(rng.choice("ab <>") for _ in range(rng.choice([0, 1, 4]))))
     if k == "S":
-        n = rng.choice([0, 1, 1, 2, 5])
-        return ("S", "".join(rng.choice("ab |:\x00\n\xff%") for _ in range(n)))
+        n = rng.choice([0, 1, 1, 2, 5, 5, 17, 40, 300])       # beyond the small-string buffer (15/16) and beyond 255
+        return ("S", "".join(rng.choice("ab |:\x00\n\xff%{}$\\") for _ in range(n)))
     if k == "N":
         return ("N", rng.choice([0, 1, -1, 42, -7, 10, 99, 100, 2 ** 31, -2 ** 31, 2 ** 63 - 1, -2 ** 63, rng.randint(-10 ** 6, 10 ** 6)]))
     return ("C", rng.randint(0, nid), "".join(rng.choice("xyz ") for _ in range(rng.choice([0, 1, 3]))), rng.choice(CKINDS))
@@ -445,10 +468,15 @@ def rand_program(rng, mn=None):
         elif r < 0.45:
             its = [rand_item(rng, 9) for _ in range(rng.randint(0, 3))]
             ctx = rng.choice("nnnuucd")
-            if rng.random() < 0.7:
+            q = rng.random()
+            if q < 0.6:
                 ops.append(op_one(lg, sv, rand_tag(rng), fit(lg, its), ctx))
-            else:
+            elif q < 0.85:
                 ops.append(op_local(lg, sv, rand_tag(rng), its, ctx))
+            elif q < 0.95:
+                ops.append(op_moved(lg, sv, rand_tag(rng), its))
+            else:
+                ops.append(op_direct(lg, sv, "".join(rng.choice("ab \x00") for _ in range(rng.choice([0, 2, 20])))))
         elif r < 0.6:
             v = rng.randrange(NSLOTS)
             ops.append(op_open(v, lg, sv, rand_tag(rng)))
@@ -546,19 +574,17 @@ class LogCheck(Check):
         yield from cross_record_cases()
         if tier == "quick":
             yield from quick_deterministic()
-            # every 29th statement of the complete single-statement space (29 is coprime to the inner loop sizes; the grids above
+            # every 97th statement of the complete single-statement space (97 is coprime to the inner loop sizes; the grids above
             # already put every item kind at every cell)
-            for n, c in enumerate(single_statement_space()):
-                if n % 29 == 1:
-                    yield c, "stmt-stride29"
+            for c in single_statement_space(stride=97):
+                yield c, "stmt-stride97"
             nprog, nseq = 6000, 3000
         else:
             for c in single_statement_space():
                 yield c, "stmt-exhaustive"
             # every third statement of the same space once more, executed in another context (rotating u, c, d; u twice as often)
-            for n, c in enumerate(single_statement_space(ctxs="uucd")):
-                if n % 3 == 1:
-                    yield c, "stmt-context"
+            for c in single_statement_space(ctxs="uucd", stride=3):
+                yield c, "stmt-context"
             nprog, nseq = 400000, 200000
         for _ in range(nprog):
             yield rand_program(rng), "program-rand"
